@@ -26,4 +26,7 @@ Monotone == \A i \in 1..(Len(bounds) - 1) : bounds[i].byte < bounds[i+1].byte /\
 Core == {"a", "1", "SP", "TAB", "NL", "CR", "DQ", "BS", "DOLLAR", "LBRACE", "RBRACE", "HASH", "SLASH", "STAR", "LT", "MINUS", "MB", "COMB", "BAD", "ASTRAL", "EXT3", "ZWJ", "VS"}
 \* grapheme-cluster alphabet for longer strings: base letter, emoji, joiner, three kinds of Extend, newline
 Clusters == {"a", "ASTRAL", "ZWJ", "COMB", "VS", "EXT3", "NL", "DQ"}
+\* heredoc alphabet: an introducer line, the marker letter, blanks, Unicode white space that is not a blank,
+\* line ends, template introducers
+Heredocs == {"HOPEN", "a", "SP", "TAB", "NBSP", "FF", "NL", "CR", "MB", "DOLLAR", "LBRACE", "RBRACE", "MINUS"}
 =============================================================================
